@@ -828,6 +828,9 @@ def run(rep: core.Report):
     _r09h(rep)
     _r09j(rep)
     _r09l(rep)
+    from rules import shared_bandaxis
+
+    shared_bandaxis.run(rep, "R09m", [("phonopy/phonon/moment.py", "PhononMoment._get_projected_moment", {})], 1)
     from rules import shared_sorted
 
     shared_sorted.run(rep, "R09k", ["phonopy/structure/grid_points.py", "phonopy/phonon/moment.py", "phonopy/phonon/mesh.py"])
@@ -849,6 +852,7 @@ def selftest():
         dict(file="c/phonopy.c", old="    int64_t i, j, k;\n    double f;\n    double *tp;", new="    int64_t i, j, k, k_w;\n    double f;\n    double *tp;")]))
     b("axis-pair compatibility vectorised in the order a~b, b~c, c~a", GP, "        m = self._mesh\n        s = self._is_shift\n        mesh_equiv = [\n            m[1] == m[2] and s[1] == s[2],\n            m[2] == m[0] and s[2] == s[0],\n            m[0] == m[1] and s[0] == s[1],\n        ]\n", "        grid = np.c_[self._mesh, np.array(self._is_shift, dtype=\"intc\")]\n        mesh_equiv = (grid == np.roll(grid, -1, axis=0)).all(axis=1)\n", "R09f", "_has_mesh_symmetry")
     n("axis-pair compatibility vectorised in the order b~c, c~a, a~b", GP, "        m = self._mesh\n        s = self._is_shift\n        mesh_equiv = [\n            m[1] == m[2] and s[1] == s[2],\n            m[2] == m[0] and s[2] == s[0],\n            m[0] == m[1] and s[0] == s[1],\n        ]\n", "        grid = np.c_[self._mesh, np.array(self._is_shift, dtype=\"intc\")]\n        mesh_equiv = (np.roll(grid, -1, axis=0) == np.roll(grid, -2, axis=0)).all(axis=1)\n")
+    b("projected moment pairs frequencies with eigenvector rows", "phonopy/phonon/moment.py", "zip(self._frequencies[i], self._eigenvectors[i].T)", "zip(self._frequencies[i], self._eigenvectors[i])", "R09m", "_get_projected_moment")
     b("thermal sum forgets the weight", "phonopy/phonon/thermal_properties.py", "                    np.sum(func(t, freqs[cond], classical=self._classical)) * w\n", "                    np.sum(func(t, freqs[cond], classical=self._classical))\n", "R09d", "_calculate_thermal_property")
     b("thermal displacement accepts a reduced mesh", API, "        if np.prod(mesh_nums) != len(ir_grid_points):\n            msg = \"run_mesh has to be done with is_mesh_symmetry=False.\"\n            raise RuntimeError(msg)\n\n        if direction is not None:\n            projection_direction", "        if direction is not None:\n            projection_direction", "R09d", "run_thermal_displacements")
     MO = "phonopy/phonon/moment.py"
